@@ -47,7 +47,7 @@ def _build(kind, config, units, extra, suffix, tag=''):
 
 def objs(config='default', units=None):
     ss = srcset.get()
-    return _build('obj', config, units or ss.c_units, ['-O0', '-g', '-c'], '.o')
+    return _build('obj', config, units or ss.c_units, ['-O0', '-g', '-fPIC', '-c'], '.o')
 
 
 def lls(config='default', units=None, opt='-O0', tag=''):
